@@ -221,15 +221,16 @@ Definition parse_defined_names (rgce : list N) : outcome (option N * list N) :=
         read_unicode_string_no_cch(&encoding, &r.data[14..], &cch, &mut name);
         let rgce = &r.data[r.data.len() - cce..];
         let formula = parse_defined_names(rgce)?; defined_names.push((name, formula)); }  *)
-Definition xls_lbl (data : list N) : outcome (list N * (option N * list N)) :=
+Definition xls_lbl (data : list N) : outcome (list N * ((option N * list N) * list N)) :=
   if (length data <? 14)%nat then Err E_LEN else              (* Len { typ: "Lbl", expected: 14 } *)
   do cch <- byte_at data 3;
   do cce <- u16_at data 4;
   if (length data <? 14 + N.to_nat cce)%nat then Err E_LEN else
   do d14 <- drop 14 data;
   let name := unicode_no_cch d14 (N.to_nat cch) in
-  do f <- parse_defined_names (skipn (length data - N.to_nat cce) data);
-  Ok (name, f).
+  let rgce := skipn (length data - N.to_nat cce) data in
+  do f <- parse_defined_names rgce;
+  Ok (name, (f, rgce)).                       (* defined_names.push((name, formula, rgce.to_vec())) *)
 
 (*  0x0017 => { if r.data.len() < 2 { Err }; let cxti = read_u16(r.data) as usize;
         xtis.extend(r.data[2..].chunks_exact(6).take(cxti).map(|xti| Xti { read_u16(&xti[..2]),
@@ -250,7 +251,8 @@ Definition xls_externsheet (data : list N) : outcome (list (N * N * N)) :=
   do cxti <- u16_at data 0;
   xti_chunks (S (length data)) cxti (skipn 2 data).
 
-Definition raw_name : Type := (list N * (option N * list N))%type.
+(* (name, (rendering of the first token, the formula's rgce)) *)
+Definition raw_name : Type := (list N * ((option N * list N) * list N))%type.
 
 (* the globals loop restricted to the three record types that build the environment (every other
    type is skipped here; the ones the real loop interprets — BoundSheet8, CodePage, FilePass, SST,
@@ -273,11 +275,37 @@ Definition xls_name_text (sheets : list (list N)) (xtis : list (N * N * N)) (f :
   | Some i => sheet_name_xls {| xe_sheets := sheets; xe_names := []; xe_xtis := xtis |} i ++ [ch_bang] ++ snd f
   end.
 
+(* after the loop (fix of K_XLS_NAME_FORMULA): the whole formula is decoded with the cell-formula
+   decoder against the names of every Lbl record; what parse_formula rejects keeps the
+   rendering of its first token
+     let mut cpf = (rgce.len() as u16).to_le_bytes().to_vec(); cpf.extend_from_slice(&rgce);
+     if let Ok(full) = parse_formula(&cpf, &fmla_sheet_names, &lbl_names, &xtis, &encoding) { full } else { old } *)
+Section XlsNames.
+Variable show_f64 : N -> list N.
+
+Definition xls_final_name (sheets : list (list N)) (xtis : list (N * N * N)) (names : list (list N))
+  (n : raw_name) : outcome (list N * list N) :=
+  match xls_parse_formula show_f64 {| xe_sheets := sheets; xe_names := names; xe_xtis := xtis |}
+          (frame_xls (snd (snd n))) with
+  | Ok full => Ok (fst n, full)
+  | Err _ => Ok (fst n, xls_name_text sheets xtis (fst (snd n)))
+  | Panic => Panic
+  | OutOfFuel => OutOfFuel
+  end.
+
+Fixpoint map_o (A B : Type) (f : A -> outcome B) (l : list A) : outcome (list B) :=
+  match l with
+  | [] => Ok []
+  | x :: t => do y <- f x; do r <- map_o f t; Ok (y :: r)
+  end.
+
 (* (metadata.names, xtis) of Xls::parse_workbook *)
 Definition xls_read_names (sheets : list (list N)) (recs : list record)
   : outcome (list (list N * list N) * list (N * N * N)) :=
   do g <- xls_globals recs [] [];
-  Ok (map (fun n => (fst n, xls_name_text sheets (snd g) (snd n))) (fst g), snd g).
+  do l <- map_o (xls_final_name sheets (snd g) (map fst (fst g))) (fst g);
+  Ok (l, snd g).
+End XlsNames.
 
 (* ---------- spec side ---------- *)
 Record lbl_rec := {
@@ -333,7 +361,8 @@ Definition xtis_of (gs : list grec) : list (N * N * N) :=
 Fixpoint spec_lbls (ds : list lbl_rec) : outcome (list raw_name) :=
   match ds with
   | [] => Ok []
-  | d :: t => do f <- parse_defined_names (lb_rgce d); do r <- spec_lbls t; Ok ((lb_name d, f) :: r)
+  | d :: t => do f <- parse_defined_names (lb_rgce d); do r <- spec_lbls t;
+              Ok ((lb_name d, (f, lb_rgce d)) :: r)
   end.
 
 (* ================================================================== formula ranges ==== *)
